@@ -119,7 +119,18 @@ func (t *tracer) on(kind byte, s *interpreter.State) {
 	for _, st := range []*[][]byte{&s.DataStack, &s.AltStack, &s.ElseStack, &s.SavedFirstStack} {
 		for i := range *st {
 			for j := range (*st)[i] {
-				(*st)[i][j] ^= 0xff
+				// what is written varies with the event: complemented, zeroed (a true item turns
+				// false), sign bit only (negative zero), one
+				switch len(t.events) % 4 {
+				case 0:
+					(*st)[i][j] ^= 0xff
+				case 1:
+					(*st)[i][j] = 0x00
+				case 2:
+					(*st)[i][j] = 0x80
+				default:
+					(*st)[i][j] = 0x01
+				}
 			}
 			(*st)[i] = append((*st)[i], 0xde, 0xad)
 		}
@@ -441,9 +452,9 @@ func check(ctx *pbt.Ctx, c Case) error {
 	}
 	for i := range rec.events {
 		a, b := rec.events[i], scr.events[i]
-		if a.kind != b.kind || !eqStacks(a.stack, b.stack) || !eqStacks(a.alt, b.alt) || fmt.Sprint(a.cond) != fmt.Sprint(b.cond) || a.sidx != b.sidx || a.oidx != b.oidx {
-			return fmt.Errorf("event %d (%c): snapshot differs after scribbling: stack %x vs %x, alt %x vs %x, cond %v vs %v, pc %d:%d vs %d:%d; %s",
-				i, a.kind, a.stack, b.stack, a.alt, b.alt, a.cond, b.cond, a.sidx, a.oidx, b.sidx, b.oidx, id)
+		if a.kind != b.kind || !eqStacks(a.stack, b.stack) || !eqStacks(a.alt, b.alt) || !eqStacks(a.els, b.els) || fmt.Sprint(a.cond) != fmt.Sprint(b.cond) || a.sidx != b.sidx || a.oidx != b.oidx {
+			return fmt.Errorf("event %d (%c): snapshot differs after scribbling: stack %x vs %x, alt %x vs %x, else %x vs %x, cond %v vs %v, pc %d:%d vs %d:%d; %s",
+				i, a.kind, a.stack, b.stack, a.alt, b.alt, a.els, b.els, a.cond, b.cond, a.sidx, a.oidx, b.sidx, b.oidx, id)
 		}
 	}
 	for k := 0; k < len(ddLog); {
@@ -492,6 +503,30 @@ func check(ctx *pbt.Ctx, c Case) error {
 	}
 	if rec.errSeen != nil && !sameErr(rec.errSeen, plain.Err) {
 		return fmt.Errorf("AfterError received %v but Execute returned %v; %s", rec.errSeen, plain.Err, id)
+	}
+	// (iii-b) the documented lifecycle has one more entry: "if bip16 and end of final script:
+	// BeforeStackPush / AfterStackPush" - the stack saved before the locking script ran is
+	// reinstated for the redeem script, and every item of it arrives through a push callback. The
+	// step that ends with the program counter at the start of script 2 must therefore contain,
+	// after its script-change callbacks, at least as many completed pushes as the stack it leaves.
+	for i := range rec.events {
+		e := rec.events[i]
+		if e.kind != 's' || e.sidx != 2 || e.oidx != 0 {
+			continue
+		}
+		pushes, j := 0, i-1
+		for ; j >= 0 && rec.events[j].kind != 'c' && rec.events[j].kind != 'S'; j-- {
+			if rec.events[j].kind == 'p' {
+				pushes++
+			}
+		}
+		if j >= 0 && rec.events[j].kind == 'c' {
+			if pushes < len(e.stack) {
+				return fmt.Errorf("lifecycle: the stack of %d items reinstated for the P2SH redeem script was announced by %d push callbacks (documented: if bip16 and end of final script, BeforeStackPush/AfterStackPush) in %q; %s", len(e.stack), pushes, seq, id)
+			}
+			ctx.Labelf("p2sh_stack_reinstated:items=%s", map[bool]string{true: "0", false: ">0"}[len(e.stack) == 0])
+		}
+		break
 	}
 	// (iv) consecutive step snapshots are consistent with the instruction between them
 	var steps []libexec.Step
